@@ -20,11 +20,65 @@ pub struct Case {
     pub cmds: Vec<RawCmd>,
     /// how the script ends: 0 = end of input, 1 = `exit`, 2 = `quit`
     pub end: u8,
+    /// Some(bytes): through the real binary, with the script on standard input followed by these
+    /// bytes (the program's input, and whatever the debugger reads when it pauses again)
+    #[serde(default)]
+    pub shared: Option<Vec<u8>>,
+}
+
+/// Debugger and program share standard input: whatever the interleaving of command reads and
+/// input traps, a finite stream ends, and with it the session (the program terminates by
+/// construction on any input). The only verdicts are "the process is blocked for good" (decided
+/// from its state: a single thread waiting on a lock) and a crash.
+fn judge_shared(c: &Case, trailing: &[u8]) -> Obs {
+    use crate::cli::{self, TempDir};
+    let mut obs = Obs::default();
+    obs.label("script-and-program-input-share-stdin-real-binary");
+    let p = match prepare(&c.spec, Layout::CANON) {
+        Ok(p) => p,
+        Err(why) => {
+            obs.excluded = Some(why);
+            return obs;
+        }
+    };
+    let cmds: Vec<Cmd> = c.cmds.iter().map(|r| make_control_cmd(&p, r)).collect();
+    let aliases: Vec<u8> = c.cmds.iter().map(|r| r.alias).collect();
+    let script = script_text(&cmds, &aliases, cmds.len(), false, [None, Some("exit"), Some("quit")][c.end as usize % 3]);
+    obs.key = hash_of(&("shared", &p.text, &script, trailing));
+    let sep = if obs.key % 3 == 0 { ";" } else { "\n" };
+    let mut stdin: Vec<u8> = script.replace('\n', sep).into_bytes();
+    stdin.extend(sep.as_bytes());
+    stdin.extend(trailing);
+    let shown = format!("stdin {:?}\n{}", String::from_utf8_lossy(&stdin), p.text);
+    obs.show = Some(shown.clone());
+    let reads = p.img.words.iter().filter(|w| matches!(**w & 0xF0FF, 0xF020 | 0xF023)).count();
+    obs.nontrivial = reads >= 1 && cmds.iter().any(|c| c.is_resuming());
+    let dir = TempDir::new();
+    dir.write("p.asm", p.text.as_bytes());
+    let mut args = vec!["debug", "p.asm", "--minimal"];
+    if p.built.stack {
+        args.extend(["-f", "stack"]);
+    }
+    let run = cli::lace(&args, dir.path(), &stdin, false, 60);
+    if run.deadlocked {
+        obs.set_fail(
+            "C16:session-blocked-forever",
+            format!("the process stopped using CPU with its only thread waiting on a lock: the session can never end although its input is finite\n{}\n{shown}", run.brief()),
+        );
+    } else if run.timed_out {
+        obs.excluded = Some("watchdog");
+    } else if run.panicked() && !String::from_utf8_lossy(&run.stderr).contains("RTI") {
+        obs.set_fail("C16:session-crashes", format!("{}\n{shown}", run.brief()));
+    }
+    obs
 }
 
 const BUDGET: u64 = 6000;
 
 pub fn judge_case(c: &Case) -> Obs {
+    if let Some(trailing) = &c.shared {
+        return judge_shared(c, trailing);
+    }
     let mut obs = Obs::default();
     let p = match prepare(&c.spec, Layout::CANON) {
         Ok(p) => p,
@@ -115,8 +169,23 @@ fn cases() -> impl Strategy<Value = Case> {
     let spec = crate::pick![5 => proggen::with_spin(proggen::prog_spec(12)).boxed(), 1 => proggen::raw_image_spec(super::c03::image_words()).boxed()];
     (spec, ending, crate::pick![3 => mixed, 2 => steppy], 0u8..3).prop_map(|(mut spec, ending, cmds, end)| {
         spec.ending = ending;
-        Case { spec, cmds, end }
+        Case { spec, cmds, end, shared: None }
     })
+}
+
+fn shared_cases() -> impl Strategy<Value = Case> {
+    // programs that read input here and there; control commands; trailing bytes that can be
+    // program input but never spell a command
+    let spec = (proggen::prog_spec(10), prop::collection::vec((any::<u16>(), any::<bool>()), 1..4)).prop_map(|(mut spec, reads)| {
+        for (at, echo) in reads {
+            let i = (at as usize * (spec.main.len() + 1)) >> 16;
+            spec.main.insert(i, proggen::PgOp::InShow(echo));
+        }
+        spec.fit = 0;
+        spec
+    });
+    let trailing = prop::collection::vec(prop::sample::select(b"0123456789+.=# \n;".to_vec()), 0..12);
+    (spec, prop::collection::vec(raw_cmd(), 0..8), 0u8..3, trailing).prop_map(|(spec, cmds, end, trailing)| Case { spec, cmds, end, shared: Some(trailing) })
 }
 
 impl Prop for C16 {
@@ -126,7 +195,7 @@ impl Prop for C16 {
     fn rule(&self) -> &'static str {
         "ProgGen programs whose reference run stops within a known bound, with endings weighted towards computed jumps to 0xFFFF, below the origin, to >= 0xFE00 and parking on HALT x scripts of 0-11 mixed (or 4-39 step-heavy) resuming / breakpoint commands (step, step into k incl. 65535, step out, continue, break add/remove) ended by end of input, `exit` or `quit`. \
          Oracle (the statement's own bound, decided by deterministic fuel, never a timer): with ticks = iterations of the run loop (hook H3), execs = executed instructions (H4), cmds = commands + 1: with inner = iterations of the debugger's own loop (H6), which shares the fuel: the session returns before 8*(bound + cmds) + 64 iterations in total, ticks <= 2*(execs + cmds) + 4 and inner <= 3*(execs + cmds) + 6. \
-         Non-trivial: the session reaches a PC outside user space or parks on HALT and issues >= 1 resuming command. Distinct = hash(source, script)."
+         Plus, through the real binary: programs that read input here and there, with a script of control commands on standard input followed by bytes that are program input (debugger and program share the stream, `;` or newline separated): the process must end; the verdict 'blocked for good' is read from the process state (its only thread waits in the futex system call, no CPU time used, four samples 0.4 s apart), never from a time limit. Non-trivial: the session reaches a PC outside user space or parks on HALT and issues >= 1 resuming command. Distinct = hash(source, script)."
     }
     fn level(&self) -> &'static str {
         "exploration"
@@ -134,8 +203,17 @@ impl Prop for C16 {
     fn assumptions(&self) -> Vec<String> {
         vec!["liveness is decided only in the bounded-work form the statement gives; blocking reads from a terminal are out of reach".into()]
     }
+    fn needs_cli(&self) -> bool {
+        true
+    }
     fn run_worker(&self, ctx: &Ctx, rep: &mut Report) {
         let n = ctx.share(ctx.tier.pick(30_000, 300_000));
+        // debugger and program sharing standard input, through the real binary (first: a process that
+        // blocks can be diagnosed and killed, a blocked thread of this worker cannot)
+        std::env::set_var("VERIF_MAX_SHRINK", "40");
+        let n2 = ctx.share(ctx.tier.pick(800, 12_000));
+        drive(ctx, rep, "shared-stdin", shared_cases(), n2, &mut |c: &Case| judge_case(c));
+        std::env::remove_var("VERIF_MAX_SHRINK");
         drive(ctx, rep, "sessions", cases(), n, &mut |c: &Case| judge_case(c));
     }
     fn fuzz_strategy(&self) -> Option<BoxedStrategy<Value>> {
